@@ -243,7 +243,9 @@ Record ucase := mkUser
     ukeys : list (Z * (Z * Z));         (* per key: the instance it belongs to, its two hashes *)
     uops : list cop;
     utouch : list (list Z);             (* per step: observed touches, sorted, without duplicates *)
-    usnaps : list (list Z) }.           (* per CSnap step: observed missing pairs, sorted *)
+    usnaps : list (list Z);             (* per CSnap step: observed missing pairs, sorted *)
+    ures : list Z }.                    (* per step: 0 no error; 1 the NO-NODE error (kv.ErrNoRedisNode, the
+                                           errNotFound handed to cache.New, a batch of them); 2 another error *)
 
 Definition enc (k s : Z) : Z := k * 64 + s.
 
@@ -277,10 +279,25 @@ Definition model_obs_u (u : ucase) : list (list Z) :=
   map (fun r => enc_touches (snd r)) (u_run u) ++
   map (fun o => match o with Some g => g | None => [-1] end) (model_snaps (uops u) (u_run u)).
 
+(* the error path of the dispatch: an operation answers the no-node error iff dispatcher.Get finds no node
+   for (one of) its key(s) — [owner] = none, i.e. the instance's ring is empty.  (A cache cluster WITH nodes
+   answers its errNotFound for an ordinary miss as well: not determined there.) *)
+Definition m_nonode (u : ucase) (o : cop) : option bool :=
+  let lost i k := match owner (u_insts u) (u_keys u) i k with None => true | Some _ => false end in
+  match o with
+  | CSingle i k => if lost i k then Some true else if is_cache (u_insts u) i then None else Some false
+  | CDel i ks | CDelX i ks => Some (existsb (lost i) ks)
+  | _ => Some false
+  end.
+
+Definition res_ok (pred : option bool) (r : Z) : bool :=
+  match pred with Some b => Bool.eqb b (r =? 1) | None => true end.
+
 Definition agrees_u (u : ucase) : bool :=
   list_eqb zs_eqb (map (fun r => enc_touches (snd r)) (u_run u)) (utouch u) &&
   forall2b (fun m o => match m with Some g => zs_eqb g o | None => true end)
-           (model_snaps (uops u) (u_run u)) (usnaps u).
+           (model_snaps (uops u) (u_run u)) (usnaps u) &&
+  forall2b (fun o r => res_ok (m_nonode u o) r) (uops u) (ures u).
 
 (* ---- the property on the observed touches: against the node maps, not against the ring ---- *)
 Definition u_maps (u : ucase) : list amap :=
@@ -344,10 +361,22 @@ Fixpoint usnaps_ok (u : ucase) (cf : bool) (clean : bool) (ops : list cop) (snap
   | _ :: ops' => usnaps_ok u cf clean ops' snaps
   end.
 
+(* the same from the node maps alone: the no-node error iff the instance has no member with a virtual node
+   (and the operation names a key at all) *)
+Definition u_is_cache (u : ucase) (i : Z) : bool :=
+  if i <? 0 then false else match nth_error (uinsts u) (Z.to_nat i) with Some ic => fst ic | None => false end.
+Definition p_nonode (u : ucase) (o : cop) : option bool :=
+  match o with
+  | CSingle i _ => if no_members u i then Some true else if u_is_cache u i then None else Some false
+  | CDel i ks | CDelX i ks => Some (no_members u i && match ks with [] => false | _ => true end)
+  | _ => Some false
+  end.
+
 Definition prop_ok_u (u : ucase) : bool :=
   let cf := collision_free (uvh u) && table_ok (uvh u) (uR u) in
   if negb (forallb (fun ic => weights_in_domain (uR u) (snd ic)) (uinsts u)) then true else
-  forall2b (ustep_ok u cf) (uops u) (utouch u) && usnaps_ok u cf false (uops u) (usnaps u).
+  forall2b (ustep_ok u cf) (uops u) (utouch u) && usnaps_ok u cf false (uops u) (usnaps u) &&
+  forall2b (fun o r => res_ok (p_nonode u o) r) (uops u) (ures u).
 
 (* ==== concurrent executions (harness/cmd/c15/conc.go) ============================================
    Several goroutines call Add / AddWithReplicas / AddWithWeight / Remove on ONE ring; the executor
